@@ -32,6 +32,7 @@ let parse_case line =
   match split_ws line with
   | tt :: hex :: cuts :: toks ->
     (* "<termtype>@<usec>": every key / mouse handler of the application takes <usec> of virtual time *)
+    (* "<termtype>%": the handlers claim every event (return 1); no effect on what is emitted *)
     let ht = (match String.index_opt tt '@' with Some i -> int_of_string (tl tt (i + 1)) | None -> 0) in
     let bytes = Array.of_list (bytes_of_hex hex) in
     let n = Array.length bytes in
